@@ -42,12 +42,12 @@ LOAD_ASSUME = ["atomicity of hashmap.Compute sections (C15) and of the calls tab
 PERIODIC = dict(engine="periodic", scale_quick=3, scale_thorough=20, timeout_quick=600, timeout_thorough=3000, model=False)
 LIN = dict(engine="lin", scale_quick=8, scale_thorough=40, timeout_quick=900, timeout_thorough=6000)
 TBL = dict(engine="tbl", scale_quick=4, scale_thorough=40, timeout_quick=600, timeout_thorough=3000)
-TBL_RULE = ("tbl engine (the tie between the Coq model of the table's concurrency protocol, HashMapConc.v, and map.go): 60 schedules per unit of scale over 3-7 concurrent Compute (set / delete / add / keep) and Get calls on a table "
+TBL_RULE = ("tbl engine (the tie between the Coq model of the table's concurrency protocol, HashMapConc.v, and map.go): 60 schedules per unit of scale over 3-7 concurrent Compute (set / delete / add / keep), Get and Range calls on a table "
             "prepared in one of three stages - 121 keys in 32 buckets so that an insert into a full chain must grow the table first; a 64-bucket table emptied to 3 keys so that deletes shrink it (or take the flag and give up); a handful of keys - "
             "every call parks at the protocol's hook points (Compute: before/after the root bucket's Lock, before the newer-table check, after both checks; resize: before the CAS on the flag, before the copy, before each source bucket some call's key lives in, "
-            "before the publication, before the flag is cleared; Get: after the table load); exactly one goroutine is resumed at a time and runs to its next point, to its return, or until the runtime reports it blocked on a bucket lock or on the resize condition; "
-            "after every macro step every thread's position, the table length, the resizing flag, the binding each invoked function was given and each Get's value must be the model's, and at the end the content and Size; "
-            "implementation-only oracles: each function invoked exactly once, on the binding a sequential map (functions applied in invocation order) has, final Range/Size equal to that map, no deadlock")
+            "before the publication, before the flag is cleared; Get: after the table load; Range: after the table load and before the Lock of each bucket some call's key lives in); exactly one goroutine is resumed at a time and runs to its next point, to its return, or until the runtime reports it blocked on a bucket lock or on the resize condition; "
+            "after every macro step every thread's position, the table length, the resizing flag, the binding each invoked function was given, each Get's value and, key by key, what each finished Range yielded must be the model's, and at the end the content and Size; "
+            "implementation-only oracles: each function invoked exactly once, on the binding a sequential map (functions applied in invocation order) has, final Range/Size equal to that map, no deadlock, a Range yields no key twice, every key bound during its whole duration, and only bindings the key had meanwhile")
 SCHED = dict(engine="sched", scale_quick=3, scale_thorough=30, timeout_quick=600, timeout_thorough=3000)
 DRAIN = dict(engine="drain", scale_quick=6, scale_thorough=30, timeout_quick=900, timeout_thorough=6000, model=False)
 
@@ -83,7 +83,7 @@ PROPS = {
                      "on the extracted model with the table's own hashes; (b) 12 free-running rounds per unit of scale: 4-11 goroutines incrementing shared counters and inserting/deleting own keys while a reader "
                      "looks up stable keys and an iterator checks each stable key is yielded exactly once; (c) SWAR kernels on boundary and random words; "
                      "distinct_nontrivial = distinct (table length, phase) pairs reached",
-                assumptions=["per-table hash seeds (maphash) are inputs read from the implementation", "the concurrency theorems (HashMapConcProofs.v) are about the protocol model: a table version is a key->binding store with one lock per root bucket (the layout inside a bucket chain is the sequential theorem's), a bucket's update, a bucket's copy and a Get's read of its key are one atomic step each, Clear and Range are not in the protocol model",
+                assumptions=["per-table hash seeds (maphash) are inputs read from the implementation", "the concurrency theorems (HashMapConcProofs.v) are about the protocol model: a table version is a key->binding store with one lock per root bucket (the layout inside a bucket chain is the sequential theorem's), a bucket's update, a bucket's copy and a Get's read of its key are one atomic step each, Clear is not in the protocol model",
                              "the tbl engine runs one goroutine at a time (every interleaving of the hook-to-hook macro steps is a schedule it can take; finer interleavings inside a macro step are exercised free-running only) and decides 'blocked' from the runtime's goroutine wait reasons (self-checked; the engine is skipped when the runtime words them differently)",
                              "resize copies run in one goroutine in the sequential part (GOMAXPROCS(1)); the parallel copy is exercised in the concurrent part only"]),
     "C16": dict(engines=[MPSC],
